@@ -16,6 +16,9 @@ from .utils import hist2d
 def _parse_limit(limit, x, logx, reduction):
     autox = False
     if limit is None:
+        if not np.isfinite(x.values).any():
+            # No point to span the axis with: any range will do, it stays empty
+            return 0.0, True
         if reduction == "min":
             limit = float(finmin(x.values))
         elif reduction == "max":
